@@ -509,10 +509,46 @@ package processor
 //@ ghostdecl fetchMode int
 //@ ghostdecl fetchCutOff uint64
 //@ ghostdecl fetchClamped int
-//@ func getNextBlocks
-//@   assumed
+// the four time getters of getNextBlocks (non-capturing closures held in
+// function-typed locals; the calls are split on the function value)
+//@ func getNextBlocks$1
+//@   props C05
+//@   requires block != nil
 //@   pure
-//@   note frame only (ASSUMED): chooses a prefix of the sorted block list through comparison functions (dynamic calls); writes nothing of the searcher
+//@   ensures result == block.HighTs
+//@ end
+//@ func getNextBlocks$2
+//@   props C05
+//@   requires block != nil
+//@   pure
+//@   ensures result == block.LowTs
+//@ end
+//@ func getNextBlocks$3
+//@   props C05
+//@   requires block != nil
+//@   pure
+//@   ensures result == block.LowTs
+//@ end
+//@ func getNextBlocks$4
+//@   props C05
+//@   requires block != nil
+//@   pure
+//@   ensures result == block.HighTs
+//@ end
+// frame PROVED (was assumed): choosing the next batch of blocks writes nothing;
+// the batch is a prefix of the sorted block list
+//@ func getNextBlocks
+//@   props C05
+//@   assumecalleerequires
+//@   requires maxBlocks <= 1000000000
+//@   pure
+//@   ensures [the-batch-is-a-prefix-of-the-sorted-blocks] implies(result2 == nil && len(sortedBlocks) > 0, samebase(result0, sortedBlocks))
+//@   loop 1:
+//@     invariant 0 <= i && 0 <= numBlocks && numBlocks <= i && i <= len(sortedBlocks)
+//@   loop 2:
+//@     invariant 0 <= numBlocks && (numBlocks <= len(sortedBlocks) || numBlocks <= maxBlocks)
+//@   loop 3:
+//@     invariant 0 <= numBlocks && numBlocks <= i && nextPossibleNumBlocks >= 1 && (numBlocks <= len(sortedBlocks) || numBlocks <= maxBlocks)
 //@ end
 //@ func (*Searcher).fetchRRCs
 //@   props C05
